@@ -37,6 +37,9 @@ Explicit(S) == { [fn |-> p.fn, a |-> [p.a EXCEPT !.impl = FALSE]] : p \in S }
 WithVia(S, v) == { [fn |-> p.fn, a |-> [p.a EXCEPT !.via = v]] : p \in S }
 WithErr(S, Es) == { [fn |-> p.fn, a |-> [p.a EXCEPT !.em0 = e[1], !.em1 = e[2], !.impl = e[3]]] : p \in S, e \in Es }
 WithAtol(S, As) == { [fn |-> p.fn, a |-> [p.a EXCEPT !.atol = x]] : p \in S, x \in As }
+(* temperatures handed over on another scale: T in hundredths of a degree, Tz = the zero of that  *)
+(* scale (0 = Celsius; falsy but valid), and other falsy-but-valid argument values                *)
+WithTz(S, z) == { [fn |-> p.fn, a |-> [p.a EXCEPT !.Tz = z]] : p \in S }
 Corr5(Ts) == P1("water_density", Ts) \cup P1("water_viscosity", Ts) \cup P1("water_diffusion", Ts)
              \cup PermPts(Ts, {1}) \cup AcidPts({50}, Ts)
 Err_q == { <<Q(1), Q(1), TRUE>>, <<Q(-1), Q(2), TRUE>>, <<Q(0), Q(0), FALSE>> }
@@ -66,6 +69,15 @@ Pts_q ==
     \cup WithErr(P1("water_diffusion", {27315, 29815, 35000}), Err_q)
     \cup WithAtol(InvPts({30, 50}, {29300}), {R(1, 1000000), R(1, 10)}) \cup Explicit(InvPts({30}, {29815, 29300}))
     \cup WithOpts(InvPts({30}, {29300, 33000, 27000}), "on", "default") \cup InvPts({30}, {29815, 33000})
+    \* falsy-but-valid values: Celsius scale (Tz = 0) incl. T = 0, another zero, P = 0 bar, w = 0, c = 0, D = 0, z = 0
+    \cup WithTz(P1("water_density", {0, 398, 400, 2500, 4000, 4001, -1}), QZero)
+    \cup WithTz(P1("water_density", {100, 500}), R(1, 1))
+    \cup WithTz(AcidPts({50, 0}, {0, 1985, 5000, 5001}), QZero)
+    \cup PermPts({29815, 37315}, {0}) \cup AcidPts({0}, {29815})
+    \cup SchumpePts({1, 8}, { <<R(0, 1), R(1, 2)>> })
+    \cup HenryPts({"henry_c"}, {1, 4}, {29000}, {QZero})
+    \cup MobPts({30000}, {0, 2}, {QZero, R(3, 1000000000)})
+    \cup WithErr(P1("water_diffusion", {29815}), { <<Q(0), Q(1), TRUE>>, <<Q(2), Q(0), TRUE>> })
     \cup HenryPts({"henry_H"}, {1, 2, 4, 5}, {27315, 29315, 29815, 31000, 35000}, {QZero})
     \cup HenryPts({"henry_c", "henry_roundtrip"}, {1, 3, 4}, {29000, 29815, 31000}, {R(1, 1), R(21, 100)})
     \cup HenryPts({"henry_P"}, {1, 2, 5}, {29000, 29815, 31000}, {R(1, 1000), R(1, 4)})
